@@ -7,6 +7,8 @@ Spec: {"pool": [[shape, channel], ...], "ops": [[op, i, j, k], ...]}     (ints a
 The expected receiver set is computed from the statement's rule at the moment the root dispatches the probe
 (observer override of _dispatcher on the pool classes; tree membership is read from the real `components` links).
 """
+import types
+
 from hypothesis import strategies as st
 
 from circuits import BaseComponent, Component, Event
@@ -163,12 +165,18 @@ def _members(root, pending=False, out=None):
     return out
 
 
-def _matches(names, chan, comp, name, target):
+def _matches(names, chan, comp, name, target, pool=None):
     if names and name not in names:
         return False
     if not names and chan == '*':
         return True  # global handler
-    hc = comp.channel if chan is None else (comp if chan == 'self' else chan)
+    if isinstance(chan, tuple):
+        # ('bound', i): a handler without a channel of its own that is a bound method of pool[i], added to `comp` with
+        # addHandler(): it belongs to comp (tree membership, instance addressing) and listens on the channel of the
+        # component it is bound to
+        hc = pool[chan[1]].channel
+    else:
+        hc = comp.channel if chan is None else (comp if chan == 'self' else chan)
     return target == '*' or hc == '*' or hc == target or hc is target or target is comp
 
 
@@ -180,8 +188,9 @@ def _expect(w, root, event, channels):
         if idx is None:
             continue
         for hid, (names, chan) in w.model[idx].items():
-            if _matches(names, chan, m, event.name, target):
-                (may if pending else must).add((idx, hid))
+            if _matches(names, chan, m, event.name, target, w.pool):
+                # the log names the component a handler ran as (its `self`)
+                (may if pending else must).add((chan[1] if isinstance(chan, tuple) else idx, hid))
     tag = event.args[0]
     w.expect[tag] = (must, may, getattr(root, 'idx', None))
     w.dispatched.append(tag)
@@ -197,7 +206,7 @@ class C01(Prop):
     id = 'C01'
     rule = ('histories (<=40 ops) over a pool of <=7 components of 7 class shapes (explicit named / multi-name / catch-all / '
             'global / channel-override / instance-channel handlers, implicit Component methods, handlers inherited with and '
-            'without override) with instance channels from {a,b,*} (handler channel overrides and fire targets also the falsy values 0 and ''): register, unregister (settled or left in flight), '
+            'without override) with instance channels from {a,b,*} (handler channel overrides and fire targets also the falsy values 0 and ''; handlers may be bound methods of another component of the pool): register, unregister (settled or left in flight), '
             'addHandler, removeHandler, fire, flush, and a compound "recycle root" op; every probe is judged at dispatch time '
             'against the matcher derived from the statement; non-trivial = a probe dispatched by a root that had already '
             'dispatched the same (name, target) and saw a structural change since; distinct = spec hash')
@@ -214,7 +223,7 @@ class C01(Prop):
     def strategy(self, tier):
         op = st.tuples(st.sampled_from(['reg', 'reg', 'unreg', 'unreg', 'unreg_nosettle', 'addh', 'addh', 'rmh', 'probe', 'probe',
                                         'probe', 'fire', 'flush', 'recycle', 'recycle', 'detach_race', 'unreg_nosettle', 'in_batch', 'in_batch']),
-                       st.integers(0, 13), st.integers(0, 13), st.one_of(st.integers(0, 39), st.integers(0, 55))).map(list)
+                       st.integers(0, 13), st.integers(0, 13), st.one_of(st.integers(0, 39), st.integers(0, 71))).map(list)
         return st.fixed_dictionaries({
             'pool': st.lists(st.tuples(st.sampled_from(SHAPES), st.sampled_from(['a', 'b', '*'])).map(list), min_size=2, max_size=7),
             'ops': st.lists(op, min_size=1, max_size=40 if tier == 'quick' else 60),
@@ -271,6 +280,17 @@ class C01(Prop):
                         w.classes.add('handler-on-falsy-channel')
                     dyn_counter[0] += 1
                     hid = 'dyn%d' % dyn_counter[0]
+                    if k >= 56:
+                        # a bound method of ANOTHER component of the pool (no channel of its own) is added to c
+                        x = w.pool[(k // len(DYN_NAMES)) % n]
+                        if x is not c:
+                            f = types.MethodType(H(*names)(rec(hid)), x)
+                            c.addHandler(f)
+                            w.model[c.idx][hid] = (names, ('bound', x.idx))
+                            w.ops_since += 1
+                            w.classes.add('method-of-another-component-added')
+                            return
+                        chan = None
                     f = H(*names, channel=(c if chan == 'self' else chan))(rec(hid))
                     c.addHandler(f)
                     w.model[c.idx][hid] = (names, chan)
